@@ -20,7 +20,8 @@
     * addresses, slots, words and hashes are natural numbers; `codeHash = 0` is the empty code hash;
     * database errors (`dbErr`, `setError`) never occur (MemDatabase/LevelDB reads succeed);
     * Go panics are explicit: a dirty address without a live object (nil dereference in Finalise) sets `fault`;
-    * runtime caches (blockCache, bodyCache, futureBlocks, badBlocks, pastTries, codeSizeCache) are not state of the model.
+    * runtime caches are not state of Layers A–C; they are Layer D (Aqv.Model.BlockImportCache), real tries are Layer A′
+      (Aqv.Model.BlockImportTrie).
 -/
 import Aqv.Base.Bytes
 import Aqv.Base.Keccak
@@ -591,11 +592,13 @@ inductive Event (Tx : Type)
   | insert (batch : List (Block Tx)) (coins : Nat → Bool)
   | prune (keep : Hash → Bool)       -- trie GC / restart of a pruning node: states whose root is not kept disappear
   | restart                          -- close + reopen on the same database: in-memory caches are dropped
+  | setHead (keep : Hash → Bool) (head : Hash)  -- SetHead / rollback: the blocks not kept are deleted, the head is rewound
 
 def Store.apply {St Tx} (C : ChainComp St Tx) (cfg : Cfg) (S : Store St Tx) : Event Tx → Store St Tx
   | .insert batch coins => (insertChain C cfg coins S batch).2.2
   | .prune keep => { S with states := fun r => if keep r then S.states r else none }
   | .restart => S
+  | .setHead keep head => { S with blocks := fun h => if keep h then S.blocks h else none, head := head }
 
 /-- run a whole arrival history. -/
 def Store.run {St Tx} (C : ChainComp St Tx) (cfg : Cfg) (S : Store St Tx) (evs : List (Event Tx)) : Store St Tx :=
